@@ -287,6 +287,30 @@ for mode, label in (("NUMBER_FRACTION", "number"), ("MASS_FRACTION", "mass")):
         c.no_raise()
 
 
+# a table restricted to a selection of components reports, for each selected component, the fractions it has in the whole material
+for mode in ("NUMBER_FRACTION", "MASS_FRACTION"):
+    @contract(f"{MAT}.data_composite", ["C11"], name=f"Material.data_composite[selection-{'number' if mode == 'NUMBER_FRACTION' else 'mass'}-fractions-given]")
+    def _(c, mode=mode):
+        c.bound = "three-component mixtures, every selection of one or two components (in any position); proportions symbolic"
+        c.chunk = 2
+        c.assume_nonzero_divisors = True
+        mix = ["N2", "O2", "Ar"]
+        for sel in ([1], [2], [0], [1, 2], [0, 2], [2, 0]):
+            def pre(b, sel=sel):
+                ps = [b.real(f"p{i}") for i in range(3)]
+                norm = b.getattr(b.cls(NORM), mode)
+                m = b.new(MAT, b.dict({s_: p for s_, p in zip(mix, ps)}), norm_type=norm)
+                return dict(args=[m], kwargs=dict(components=b.list([mix[i] for i in sel]), quantity=False),
+                            env=dict(ps=ps, ms=[_mass(s_, True) for s_ in mix], sel=[(mix[i], i) for i in sel]))
+            c.scenario("selection-" + "+".join(mix[i] for i in sel), pre)
+        c.requires("all([p > 0 for p in ps])")
+        if mode == "NUMBER_FRACTION":
+            c.ensures("all([near(frac(result, k, 'x'), 100 * ps[i] / sum(ps)) and near(frac(result, k, 'X'), 100 * ps[i] * ms[i] / sum([q * w for q, w in zip(ps, ms)])) for k, i in sel])", "fractions-of-the-whole-material")
+        else:
+            c.ensures("all([near(frac(result, k, 'X'), 100 * ps[i] / sum(ps)) and near(frac(result, k, 'x'), 100 * (ps[i] / ms[i]) / sum([q / w for q, w in zip(ps, ms)])) for k, i in sel])", "fractions-of-the-whole-material")
+        c.no_raise()
+
+
 for opname in ("__add__", "__rmul__"):
     @contract(f"{MAT}.{opname}", ["C11"], name=f"Material.{opname}")
     def _(c, opname=opname):
@@ -488,6 +512,25 @@ def _(c):
     c.ensures("(lambda t: near(t['sum'].data()['rho'], self.mass_density.value('g/cm3')) and near(t['sum'].data()['rho'], sum([t[k].data()['rho'] for k in self.components.keys()])))(self.data_matter(quantity=False))", "component-mass-densities-add-up-to-rho")
     c.ensures("(lambda t: all([near(t[k].data()['n'], (c0.get(k, 0) + (p if k == key else 0)) * self.number_density.value('cm-3')) for k in names]))(self.data_matter(quantity=False))", "component-number-densities-are-amount-times-n-of-the-new-state")
     c.ensures("counts(twin) == c0 and near(twin.mass_density.value('g/cm3'), x if given == 'rho' else x * m0)", "another-object-built-from-the-same-formula-is-unaffected")
+    c.no_raise()
+
+
+# ---- single elements and bare nucleons (an electron or neutron gas) with a density attached: the same derivations -----------------------------
+@contract(f"{EL}.__init__", ["C12"], name="Element.__init__[with-density]")
+def _(c):
+    c.bound = "the listed species (elements, an isotope, an ion, the three nucleon symbols); number density or mass density given, with a volume; all symbolic"
+    c.chunk = 4
+    c.assume_nonzero_divisors = True
+    for expr in ["[p]", "[n]", "[e]", "H", "Fe{56}", "O{-2}", "D"]:
+        for given in ("n", "rho"):
+            def pre(b, expr=expr, given=given):
+                x, vol = b.real("x"), b.real("vol")
+                kw = dict(number_density=b.new(QTY, x, "cm-3")) if given == "n" else dict(mass_density=b.new(QTY, x, "g/cm3"))
+                return dict(args=[b.obj(EL), expr], kwargs=dict(volume=b.new(QTY, vol, "cm3"), **kw), env=dict(x=x, vol=vol, given=given, m=M.species(expr, True)[0] * DA_G))
+            c.scenario(f"{expr} {given}", pre)
+    c.requires("x > 0 and vol > 0")
+    c.ensures("near(self.mass_density.value('g/cm3'), x * m if given == 'n' else x) and near(self.number_density.value('cm-3'), x if given == 'n' else x / m)", "the-other-density-follows-from-rho-equals-n-times-mass")
+    c.ensures("near(self.mass.value('g'), (x * m if given == 'n' else x) * vol)", "mass-is-rho-times-volume")
     c.no_raise()
 
 
